@@ -43,6 +43,8 @@ static int outp[MAXC][MAXPIX], outp2[MAXC][MAXPIX];
 static int ed[MAXC][MAXPIX], dd[MAXC][MAXPIX];
 static int edn[MAXC], ddn[MAXC], injn[MAXC];
 static int inject, hook_problem;
+#define RAWMAX 1500
+static int rawbuf[RAWMAX], rawn;      /* the destination buffer of tj3Decompress*, element by element (small images) */
 
 static jmp_buf jb;
 static int last_err;
@@ -435,6 +437,13 @@ static int tj_roundtrip(int prec, int w, int h, int nc, int rmode, long rval, in
       outp[ci][y * w + x] = v;
     }
   }
+  rawn = -1;
+  if (n <= RAWMAX) {
+    size_t i;
+    for (i = 0; i < n; i++)
+      rawbuf[i] = prec <= 8 ? ((unsigned char *)dst)[i] : prec <= 12 ? ((short *)dst)[i] : ((unsigned short *)dst)[i];
+    rawn = (int)n;
+  }
   rc = 0;
 done:
   if (hc) tj3Destroy(hc);
@@ -530,7 +539,10 @@ int main(void)
           printf("ok ed - ; dd"); print_group(dd, nc, w * h); printf(" ; out"); print_group(outp2, nc, w * h); printf("%s\n", summary); continue;
         }
         if (bad) { printf("fail %s\n", bad == 1 ? "observer-count" : "tj3Decompress-differs-from-jpeg_read_scanlines"); continue; }
-        printf("ok ed - ; dd"); print_group(dd, nc, w * h); printf(" ; out"); print_group(outp, nc, w * h); printf("%s\n", summary);
+        printf("ok ed - ; dd"); print_group(dd, nc, w * h); printf(" ; out"); print_group(outp, nc, w * h); printf("%s", summary);
+        printf(" ; buf");
+        if (rawn < 0) printf(" -"); else for (i = 0; i < rawn; i++) printf(" %d", rawbuf[i]);
+        printf("\n");
       } else printf("?\n");
     }
   }
